@@ -431,8 +431,8 @@ def gen_run_cfg(rng, pattern=None, thorough=False):
         "max_steps": rng.choice([0, 1, 3, 8, 15, 25, 40] + ([60, 80] if thorough else [])),
         "solve_initial": rng.random() < 0.35,
         "salt": rng.randint(0, 10 ** 6),
-        "ksat": rng.choice([0, 0, 2, 3, 5, 1]),
-        "kuniq": rng.choice([1, 3, 10, 50, 400, 10 ** 9, 10 ** 9]),
+        "ksat": rng.choice([0, 0, 0, 2, 3, 5, 5, 1]),
+        "kuniq": rng.choice([1, 3, 10, 50, 50, 400, 400, 10 ** 9]),
         "kpre": rng.choice([0, 0, 2, 5]),
         "pen": rng.random() < 0.4,
         "stateful": rng.random() < 0.3,
@@ -588,6 +588,7 @@ def corr_candidates(ctx, m):
         else:
             ctx.count("cand:choice")
         ctx.corr("cand", (json.dumps(spec), show_prob(cur0), seed), parse_cand_reply(o), po)
+        ctx.count("cand-outcome:" + (po[1] if po[0] == "err" else ("empty" if not po[1][0] else "some")))
         if cur != cur0:
             ctx.violation("candidates-mutate-current", "candidates()/copy_with_update() modified the current problem",
                           {"builder": spec, "current": cur0, "after": cur, "seed": seed})
@@ -641,7 +642,7 @@ def corr_neighbours(ctx, m):
 
 def corr_runs(ctx, m):
     rng = ctx.rng
-    n = 500 if ctx.thorough else 140
+    n = 2500 if ctx.thorough else 400
     cfgs = [gen_run_cfg(rng, thorough=ctx.thorough) for _ in range(n)]
     # a few fixed shapes: default max_steps (None -> 1000) on a tiny pattern, the bench-like patterns
     cfgs.append(dict(gen_run_cfg(rng, ["C", [0, 1, 2], 0]), max_steps=None, kuniq=10 ** 9, ksat=2))
@@ -669,6 +670,8 @@ def corr_runs(ctx, m):
                 ctx.mismatches.append({"kind": "draw-chain", "input": json.dumps(cfg), "model": list(prev), "impl": list(s0)})
             prev = s1
             replays.append((cfg, call, s0, res, s1))
+            ctx.count("run-draw:" + call[0])
+        ctx.count("run-solver-calls", len(cb.trace))
     if ctx.thorough or len(replays) <= 60000:
         sel = replays
     else:
